@@ -145,66 +145,7 @@ func checkC16(w *World, r *Report) {
 	})
 
 	r.Rule("R16.4", "patterns are implicitly anchored: the compiled expression is ^( pattern )$ on every path", 2)
-	r.guard("R16.4", func() {
-		pp := w.Pkg("parse")
-		m := w.Method("parse", "PatternArg", "Parse")
-		fd, _ := w.FuncDecl(m)
-		var compiled types.Object
-		ast.Inspect(fd.Body, func(x ast.Node) bool {
-			if ce, ok := x.(*ast.CallExpr); ok {
-				if c := calleeOf(pp, ce); c != nil && c.FullName() == "regexp.Compile" {
-					compiled = objOfIdent(pp, ce.Args[0])
-				}
-			}
-			return true
-		})
-		ok := false
-		ast.Inspect(fd.Body, func(x ast.Node) bool {
-			as, isA := x.(*ast.AssignStmt)
-			if !isA || len(as.Lhs) != 1 || compiled == nil || objOfIdent(pp, as.Lhs[0]) != compiled {
-				return true
-			}
-			// "^(" + s + ")$"
-			be, isB := ast.Unparen(as.Rhs[0]).(*ast.BinaryExpr)
-			if !isB || be.Op != token.ADD {
-				return true
-			}
-			inner, isI := ast.Unparen(be.X).(*ast.BinaryExpr)
-			if !isI || inner.Op != token.ADD {
-				return true
-			}
-			a, okA := ConstStr(pp, inner.X)
-			b, okB := ConstStr(pp, be.Y)
-			if okA && okB && a == "^(" && b == ")$" && objOfIdent(pp, inner.Y) == compiled {
-				ok = true
-			}
-			return true
-		})
-		r.Check(ok, "R16.4", "PatternArg.Parse anchoring", fd.Pos(), "\"^(\" + pattern + \")$\"", "the pattern is not wrapped as ^(…)$: a value that merely contains a match, or matches one alternative of an unparenthesised '|', is accepted")
-		// on every path: the value handed to regexp.Compile is itself the wrapped string, not a join of a wrapped and an unwrapped one
-		sf := w.SSAFunc(m)
-		every := false
-		var cpos token.Pos = fd.Pos()
-		for _, b := range sf.Blocks {
-			for _, in := range b.Instrs {
-				c, isC := in.(*ssa.Call)
-				if !isC || c.Call.StaticCallee() == nil || c.Call.StaticCallee().String() != "regexp.Compile" {
-					continue
-				}
-				cpos = c.Pos()
-				if outer, ok := c.Call.Args[0].(*ssa.BinOp); ok && outer.Op == token.ADD {
-					if k, ok := outer.Y.(*ssa.Const); ok && k.Value != nil && k.Value.Kind() == constant.String && constant.StringVal(k.Value) == ")$" {
-						if inner, ok := outer.X.(*ssa.BinOp); ok && inner.Op == token.ADD {
-							if k2, ok := inner.X.(*ssa.Const); ok && k2.Value != nil && k2.Value.Kind() == constant.String && constant.StringVal(k2.Value) == "^(" {
-								every = true
-							}
-						}
-					}
-				}
-			}
-		}
-		r.Check(every, "R16.4", "PatternArg.Parse anchors on every path", cpos, "regexp.Compile(\"^(\" + … + \")$\") unconditionally", "on some path the expression handed to regexp.Compile is not the ^(…)$ wrapping (e.g. patterns that already carry anchors are left alone): \"^a|b$\" then accepts any value that starts with a or ends with b")
-	})
+	r.guard("R16.4", func() { r7PatternAnchored(w, r, "R16.4") })
 
 	r.Rule("R16.9", "a union accepts iff some member accepts — so every member type written in the union reaches it: in getTypes each BuildType result of the loop over the type statements is appended on every path (no member is dropped, e.g. for sharing a type name with an earlier one)", 1)
 	r.guard("R16.9", func() {
